@@ -26,6 +26,8 @@ var c03Pref64 = []string{
 	"64:ff9b::/96", "2001:db8::/96", "2001:db8::/64", "2001:db8::/56", "2001:db8::/48", "2001:db8::/40", "2001:db8::/32",
 	"2001:db8::/33", "2001:db8::/95", "2001:db8::/97", "2001:db8::/128", "::/0", "2001:db8::/16", "2001:db8::/8", "2001:db8::/63",
 	"10.0.0.0/8", "192.0.2.0/24", "::ffff:192.0.2.0/120", "::ffff:0.0.0.0/96", "2001:db8::1/96", "64:ff9b::/31", "",
+	// every other byte-aligned length (none of them has a PREF64 length code)
+	"2001:db8::/24", "2001:db8:1::/72", "2001:db8:1::/80", "2001:db8:1::/88", "2001:db8:1::/104", "2001:db8:1::/112", "2001:db8:1::/120",
 }
 
 func c03Gen(rng *verifsim.RNG, idx int, tier string) *Plan {
